@@ -491,6 +491,8 @@ def downsample(
                 kernels.append(None)
         data = conv(data, reversed(kernels))
     mode = Sampling.from_arg(mode).interpolate_mode(grid.ndim)
+    if mode in ("area", "nearest", "nearest-exact"):
+        align_corners = None
     return F.interpolate(data, size=grid.shape, mode=mode, align_corners=align_corners)
 
 
@@ -558,6 +560,8 @@ def upsample(
     dims = tuple(SpatialDim.from_arg(dim) for dim in dims)
     grid = grid.upsample(levels, dims=dims)
     mode = Sampling.from_arg(mode).interpolate_mode(grid.ndim)
+    if mode in ("area", "nearest", "nearest-exact"):
+        align_corners = None
     result: Tensor = F.interpolate(data, size=grid.shape, mode=mode, align_corners=align_corners)
     if sigma is not None:
         sigma: Tensor = torch.atleast_1d(as_tensor(sigma, dtype=torch.float))
